@@ -1,4 +1,4 @@
-(* C04 — any valid layout written by another implementation is read correctly.  Statements are printed by Check below and compared with C04.expected.  PARTIAL: the layout-independence components are theorems — a chain is read as the concatenation of its sectors in chain order WHATEVER the sector numbers (fragmented, reversed, anywhere in the file), lookup finds exactly the keys of ANY search tree over the CFB order (balanced red-black or degenerate, any slots), listing is the in-order sequence, the order is shortlex on upper-cased UTF-16 units.  Also proved (proofs/WfOpen.v), for ARBITRARY bytes: whatever the independent checker spec/WfImage.v accepts - any sector placement, any chain order, any DIFAT layout - strict and permissive open take through the header, DIFAT, FAT, allocator-validation and MiniFAT phases and return exactly the tables the checker computed (FAT, FAT-sector list, DIFAT chain, decoded entries, MiniFAT), GIVEN that every directory slot decodes (entry_ok) and the directory validation accepts; those two hypotheses are the directory stage, not yet derived from the checker's tree rules, and SizeOk (at most MAXREGSECT sectors) is a rule the checker lacks.  The composition with the abstraction (Represents b t -> abs (open b) = t) is not proved; it is checked on images written by an independent layout synthesiser. *)
+(* C04 — any valid layout written by another implementation is read correctly.  Statements are printed by Check below and compared with C04.expected.  PARTIAL: the layout-independence components are theorems — a chain is read as the concatenation of its sectors in chain order WHATEVER the sector numbers (fragmented, reversed, anywhere in the file), lookup finds exactly the keys of ANY search tree over the CFB order (balanced red-black or degenerate, any slots), listing is the in-order sequence, the order is shortlex on upper-cased UTF-16 units.  Also proved (proofs/WfOpen.v), for ARBITRARY bytes (every element a byte): WHATEVER the independent checker spec/WfImage.v accepts (50 rules; any sector placement, any chain order, any DIFAT layout, any red-black tree shape, any slot assignment) strict open and permissive open succeed, and the state they return has exactly the tables the checker computed from the bytes: FAT, FAT-sector list, DIFAT chain, the decoded directory entries and the MiniFAT (wf_open_opened, wf_open_ok, and the permissive forms).  Proving it exposed seven places where the checker had been weaker than MS-CFB; they are now rules 45-50 and the theorem has no hypothesis besides bytes_ok (the model's byte type is N).  The composition with the abstraction (Represents b t -> abs (open b) = t) is not proved; it is checked on images written by an independent layout synthesiser. *)
 From Cfb.model Require Import Base Names DirEnt State Alloc Dir Mini Store Handle Open Cfb.
 From Cfb.gen Require Import Consts.
 From Cfb.spec Require Import WfImage.
@@ -65,14 +65,56 @@ Proof. exact wf_open_given_dir. Qed.
 Check C04_wf_open_given_directory_phase.
 Print Assumptions C04_wf_open_given_directory_phase.
 
-(* PARTIAL composition: hypotheses = every slot decodes + directory validation accepts (+ SizeOk) *)
-Theorem C04_wf_open_ok_partial : ltac:(let t := type of wf_open_ok in exact t).
-Proof. exact wf_open_ok. Qed.
-Check C04_wf_open_ok_partial.
-Print Assumptions C04_wf_open_ok_partial.
+(* the directory stage: the checker's tree walk (search tree, no red-red, every id once) implies that the model's explicit-stack DFS validation accepts *)
+Theorem C04_wf_directory_validation_accepts : ltac:(let t := type of wf_dir_validate_ok in exact t).
+Proof. exact wf_dir_validate_ok. Qed.
+Check C04_wf_directory_validation_accepts.
+Print Assumptions C04_wf_directory_validation_accepts.
 
-(* same for permissive open, identical state *)
-Theorem C04_wf_open_ok_permissive_partial : ltac:(let t := type of wf_open_ok_permissive in exact t).
+(* root, every reached node and every blank slot satisfy what the strict entry decoder demands *)
+Theorem C04_wf_entries_decode : ltac:(let t := type of wf_entries_ok in exact t).
+Proof. exact wf_entries_ok. Qed.
+Check C04_wf_entries_decode.
+Print Assumptions C04_wf_entries_decode.
+
+(* THE THEOREM: wf_check bytes = 0 -> strict open = Ok (the state built from the checker's own tables) *)
+Theorem C04_wf_open_returns_the_checkers_tables : ltac:(let t := type of wf_open_opened in exact t).
+Proof. exact wf_open_opened. Qed.
+Check C04_wf_open_returns_the_checkers_tables.
+Print Assumptions C04_wf_open_returns_the_checkers_tables.
+
+(* corollary: every accepted image opens in strict mode *)
+Theorem C04_wf_open_ok : ltac:(let t := type of wf_open_ok in exact t).
+Proof. exact wf_open_ok. Qed.
+Check C04_wf_open_ok.
+Print Assumptions C04_wf_open_ok.
+
+(* the same state from permissive open *)
+Theorem C04_wf_open_returns_the_checkers_tables_permissive : ltac:(let t := type of wf_open_opened_permissive in exact t).
+Proof. exact wf_open_opened_permissive. Qed.
+Check C04_wf_open_returns_the_checkers_tables_permissive.
+Print Assumptions C04_wf_open_returns_the_checkers_tables_permissive.
+
+(* corollary *)
+Theorem C04_wf_open_ok_permissive : ltac:(let t := type of wf_open_ok_permissive in exact t).
 Proof. exact wf_open_ok_permissive. Qed.
-Check C04_wf_open_ok_permissive_partial.
-Print Assumptions C04_wf_open_ok_permissive_partial.
+Check C04_wf_open_ok_permissive.
+Print Assumptions C04_wf_open_ok_permissive.
+
+(* why bytes_ok is a hypothesis: a list element of 70000 in a name field passes the checker and is refused by open *)
+Theorem C04_bytes_ok_is_needed : ltac:(let t := type of WfOpen.Gaps.bytes_ok_needed in exact t).
+Proof. exact WfOpen.Gaps.bytes_ok_needed. Qed.
+Check C04_bytes_ok_is_needed.
+Print Assumptions C04_bytes_ok_is_needed.
+
+(* the theorem applied to model-written images of both versions *)
+Theorem C04_wf_open_example_by_theorem : ltac:(let t := type of WfOpen.WfOpenExample.opened_by_theorem in exact t).
+Proof. exact WfOpen.WfOpenExample.opened_by_theorem. Qed.
+Check C04_wf_open_example_by_theorem.
+Print Assumptions C04_wf_open_example_by_theorem.
+
+(* non-vacuity of the premises: a model-written image with storages, mini and regular streams and removals *)
+Theorem C04_wf_open_example : ltac:(let t := type of WfOpen.WfOpenExample.premises_v3 in exact t).
+Proof. exact WfOpen.WfOpenExample.premises_v3. Qed.
+Check C04_wf_open_example.
+Print Assumptions C04_wf_open_example.
